@@ -46,7 +46,12 @@ type KnownFile struct {
 	Fixed    []string             `json:"fixed"`
 }
 
-const verifRoot = "/verif"
+var verifRoot = func() string {
+	if r := os.Getenv("VERIF_ROOT"); r != "" {
+		return r
+	}
+	return "/verif"
+}()
 
 func envInt(name string, def int) int {
 	if s := os.Getenv(name); s != "" {
